@@ -60,8 +60,9 @@ impl MV for f64 {
     fn sqtrap2(m: &Mesh2D<f64>, var: usize) -> Option<f64> { Some(m.square_trapezium(var)) }
     fn roundtrip(m: &Mesh1D<f64, f64>, path: &str, p: usize, m0: usize) -> Option<Mesh1D<f64, f64>> {
         m.output(path, p);
-        // the receiving mesh starts with other nodes (and another number of them): read() must replace them
-        let mut r = Mesh1D::<f64, f64>::new(Vector::create((0..m0).map(|k| 100.0 + k as f64).collect()), m.nvars());
+        // the receiving mesh holds OTHER data on ANOTHER grid with m0 nodes (fewer / more / equally many): read() must replace all of it
+        let mut r = Mesh1D::<f64, f64>::new(Vector::create((0..m0).map(|k| 1000.5 + 3.0 * k as f64).collect()), m.nvars());
+        for k in 0..m0 { r.set_nodes_vars(k, Vector::create((0..m.nvars()).map(|v| 777.25 + (k + v) as f64).collect())); }
         r.read(path);
         Some(r)
     }
@@ -77,8 +78,17 @@ impl MV for Rat {
 
 fn jv<T: MV>(v: &Vector<T>, sv: i64) -> Value { Value::from(v.vec.iter().map(|x| x.sc(sv)).collect::<Vec<i64>>()) }
 fn vec_of<T: MV>(v: &Value, sv: i64) -> Vector<T> { Vector::create(ivec(v).iter().map(|d| T::mk(*d, sv)).collect()) }
-fn nodes_of(v: &Value, s: i64) -> Vector<f64> { Vector::create(ivec(v).iter().map(|x| *x as f64 / p2(s)).collect()) }
-fn jnodes(v: &Vector<f64>, s: i64) -> Value { Value::from(v.vec.iter().map(|x| f2i(*x * p2(s))).collect::<Vec<i64>>()) }
+/// optional integer field (0 when absent)
+fn geto(v: &Value, k: &str) -> i64 { v.get(k).and_then(|x| x.as_i64()).unwrap_or(0) }
+/// node positions x_k = o + (X_k + F_k / 2^kf) / 2^s  (offset o, coarse numerators X, fine numerators F; every term and the sums are exact by construction of the cases)
+fn nodes_of(xn: &Value, xf: Option<&Value>, s: i64, kf: i64, o: f64) -> Vector<f64> {
+    let f = xf.map(ivec).unwrap_or_default();
+    Vector::create(ivec(xn).iter().enumerate().map(|(k, x)| o + (*x as f64 / p2(s) + if k < f.len() { f[k] as f64 / p2(s + kf) } else { 0.0 })).collect())
+}
+/// coordinates relative to the offset, as numerators over 2^s
+fn jnodes(v: &Vector<f64>, s: i64, o: f64) -> Value { Value::from(v.vec.iter().map(|x| f2i((*x - o) * p2(s))).collect::<Vec<i64>>()) }
+/// an exact dyadic result y as (floor(y), (y - floor(y)) * 2^f): H + L / 2^f
+fn split(y: f64, f: i64, o: &mut Value) { let h = y.floor(); o["ri"] = json!(f2i(h)); o["rl"] = json!(f2i((y - h) * p2(f))); }
 fn jratv(v: &Vector<f64>, sv: i64) -> Value {
     Value::from(v.vec.iter().map(|x| match f64_to_rat(*x * p2(sv)) { Some(r) => jrat(r), None => json!([BAD, 1]) }).collect::<Vec<Value>>())
 }
@@ -110,7 +120,8 @@ fn proj2_index<T: MV>(m: &Mesh2D<T>, sv: i64) -> Value {
         Value::from((0..nx).map(|i| Value::from((0..ny).map(|j| jv(&m[(i, j)], sv)).collect::<Vec<Value>>())).collect::<Vec<Value>>()) }).unwrap_or_else(|_| json!([]))
 }
 
-struct Sc { sx: i64, sy: i64, sv: i64 }
+struct Sc { sx: i64, sy: i64, sv: i64, ox: f64, oy: f64, kx: i64, ky: i64 }
+fn sc_of(case: &Value) -> Sc { Sc { sx: geti(case, "sx"), sy: geto(case, "sy"), sv: geti(case, "sv"), ox: geto(case, "ox") as f64, oy: geto(case, "oy") as f64, kx: geto(case, "kx"), ky: geto(case, "ky") } }
 
 // ------------------------------------------------------------------ 1-D
 fn step1<T: MV>(m: &mut Mesh1D<T, f64>, op: &Value, sc: &Sc, cid: i64, k: usize) -> Option<Value> {
@@ -127,14 +138,14 @@ fn step1<T: MV>(m: &mut Mesh1D<T, f64>, op: &Value, sc: &Sc, cid: i64, k: usize)
             "get" => o["rv"] = jv(&m.get_nodes_vars(getu(op, "node")), sc.sv),
             "index" => o["rv"] = jv(&m[getu(op, "node")], sc.sv),
             "index_all" => o["rvars"] = Value::from((0..m.nnodes()).map(|k| jv(&m[k], sc.sv)).collect::<Vec<Value>>()),
-            "coord" => o["ri"] = json!(f2i(m.coord(getu(op, "node")) * p2(sc.sx))),
-            "nodes" => o["rv"] = jnodes(&m.nodes(), sc.sx),
+            "coord" => o["ri"] = json!(f2i((m.coord(getu(op, "node")) - sc.ox) * p2(sc.sx))),
+            "nodes" => o["rv"] = jnodes(&m.nodes(), sc.sx, sc.ox),
             "nnodes" => o["ri"] = json!(m.nnodes() as i64),
             "nvars" => o["ri"] = json!(m.nvars() as i64),
-            "interp" => { let x = geti(op, "p") as f64 / p2(sc.sx + geti(op, "r")); o["rr"] = jratv(&T::interp(m, x).unwrap(), sc.sv); }
+            "interp" => { let x = sc.ox + geti(op, "p") as f64 / p2(sc.sx + geti(op, "r")); o["rr"] = jratv(&T::interp(m, x).unwrap(), sc.sv); }
             // a dyadic point in a cell whose width is not a power of two (TLC-generated grids): the f64 result is not exact;
             // logged rounded to 2^-20 (times 2^sv), TLC compares with the model's rational to within one such unit
-            "interp_q" => { let x = geti(op, "p") as f64 / p2(sc.sx + geti(op, "r"));
+            "interp_q" => { let x = sc.ox + geti(op, "p") as f64 / p2(sc.sx + geti(op, "r"));
                 let got = T::interp(m, x).unwrap();
                 o["rq"] = Value::from(got.vec.iter().map(|y| { let z = (*y * p2(sc.sv + 20)).round(); if z.is_finite() && z.abs() < SAT as f64 { z as i64 } else { BAD } }).collect::<Vec<i64>>()); }
             "interp_any" => {
@@ -154,7 +165,7 @@ fn step1<T: MV>(m: &mut Mesh1D<T, f64>, op: &Value, sc: &Sc, cid: i64, k: usize)
                 }
                 o["units"] = Value::from(us); o["cell"] = json!(c as i64);
             }
-            "trap" => o["ri"] = json!(f2i(T::trap1(m, getu(op, "var")).unwrap() * p2(sc.sx + 1 + sc.sv))),
+            "trap" => split(T::trap1(m, getu(op, "var")).unwrap() * p2(sc.sx + 1 + sc.sv), sc.kx, &mut o),
             "roundtrip" => {
                 let p = getu(op, "p");
                 let path = format!("{}/mesh_rt_{}_{}_{}.dat", file_dir(), std::process::id(), cid, k);
@@ -162,10 +173,19 @@ fn step1<T: MV>(m: &mut Mesh1D<T, f64>, op: &Value, sc: &Sc, cid: i64, k: usize)
                 let _ = std::fs::remove_file(&path);
                 let rb = match res { Ok(x) => x, Err(s) => panic!("{}", s) };
                 let unit = (10.0f64).powi(-(p as i32));
-                let n = m.nnodes().min(rb.nnodes());
-                o["nn"] = json!(rb.nnodes() as i64);
-                o["nu"] = Value::from((0..n).map(|q| units((rb.coord(q) - m.coord(q)).abs(), unit)).collect::<Vec<i64>>());
-                o["vu"] = Value::from((0..n).map(|q| Value::from((0..m.nvars()).map(|v| if v < rb[q].size() { units((rb[q][v] - m[q][v].to_f64()).abs(), unit) } else { SAT }).collect::<Vec<i64>>())).collect::<Vec<Value>>());
+                let n = m.nnodes().min(rb.nnodes()); let nv = m.nvars();
+                o["nn"] = json!(rb.nnodes() as i64); o["nvr"] = json!(rb.nvars() as i64);
+                // every accessor of the mesh that was read: nodes(), coord, get_nodes_vars, index
+                let rn = rb.nodes();
+                o["nu"] = Value::from((0..n).map(|q| if q < rn.size() { units((rn[q] - m.coord(q)).abs(), unit) } else { SAT }).collect::<Vec<i64>>());
+                o["cu"] = Value::from((0..n).map(|q| units((rb.coord(q) - m.coord(q)).abs(), unit)).collect::<Vec<i64>>());
+                o["vu"] = Value::from((0..n).map(|q| Value::from((0..nv).map(|v| if v < rb[q].size() { units((rb[q][v] - m[q][v].to_f64()).abs(), unit) } else { SAT }).collect::<Vec<i64>>())).collect::<Vec<Value>>());
+                o["gu"] = Value::from((0..n).map(|q| { let g = rb.get_nodes_vars(q); Value::from((0..nv).map(|v| if v < g.size() { units((g[v] - m[q][v].to_f64()).abs(), unit) } else { SAT }).collect::<Vec<i64>>()) }).collect::<Vec<Value>>());
+                // trapezium of the mesh that was read: nodes and values deviate by <= u each, hence |difference| <= u (L + 2 V (n-1) + 2 (n-1) u)
+                let nn = m.nnodes(); let len = (m.coord(nn - 1) - m.coord(0)).abs();
+                let mut vmx = 0.0f64; for q in 0..nn { for v in 0..nv { vmx = vmx.max(m[q][v].to_f64().abs()); } }
+                let tunit = unit * (len + 2.0 * vmx * (nn - 1) as f64 + 2.0 * (nn - 1) as f64 * unit) * (1.0 + 1.0e-9);
+                o["tu"] = Value::from((0..nv).map(|v| if rb.nnodes() == nn && rb.nvars() == nv { units((rb.trapezium(v) - T::trap1(m, v).unwrap()).abs(), tunit) } else { SAT }).collect::<Vec<i64>>());
             }
             other => { eprintln!("TOOL-ERROR unknown mesh1d op {}", other); std::process::exit(2) }
         }
@@ -187,14 +207,14 @@ fn expand1(op: &Value, n: usize, nv: usize, xn: &[i64]) -> Vec<Value> {
 
 fn run1<T: MV>(case: &Value, out: &mut Out) {
     let cid = geti(case, "cid");
-    let sc = Sc { sx: geti(case, "sx"), sy: 0, sv: geti(case, "sv") };
+    let sc = sc_of(case);
     let xn = ivec(&case["xn"]); let nv = getu(case, "nv");
-    let mut m = Mesh1D::<T, f64>::new(nodes_of(&case["xn"], sc.sx), nv);
+    let mut m = Mesh1D::<T, f64>::new(nodes_of(&case["xn"], case.get("xf"), sc.sx, sc.kx, sc.ox), nv);
     let mut first = true; let mut k = 0usize;
     for op0 in case["ops"].as_array().unwrap() {
         for op in expand1(op0, xn.len(), nv, &xn) {
             // the history starts from the model's fresh mesh (all zeros), NOT from a projection of the implementation
-            let pre = if first { Some(json!({"xn": case["xn"], "yn": [], "nv": nv, "vars": vec![vec![0i64; nv]; xn.len()]})) } else { None };
+            let pre = if first { Some(json!({"xn": case["xn"], "yn": [], "xf": case.get("xf").cloned().unwrap_or_else(|| Value::from(vec![0i64; xn.len()])), "kx": sc.kx, "nv": nv, "vars": vec![vec![0i64; nv]; xn.len()]})) } else { None };
             if let Some(mut e) = step1(&mut m, &op, &sc, cid, k) {
                 e["cid"] = json!(cid); e["k"] = json!(k); e["kind"] = json!("m1"); e["ty"] = json!(T::NAME);
                 if let Some(p) = pre { e["pre"] = p; first = false; }
@@ -206,8 +226,8 @@ fn run1<T: MV>(case: &Value, out: &mut Out) {
 }
 
 // ------------------------------------------------------------------ 2-D
-fn sect<T: MV>(s: &Mesh1D<T, f64>, scale: i64, sv: i64, o: &mut Value) {
-    o["rn"] = jnodes(&s.nodes(), scale); o["rnv"] = json!(s.nvars() as i64);
+fn sect<T: MV>(s: &Mesh1D<T, f64>, scale: i64, off: f64, sv: i64, o: &mut Value) {
+    o["rn"] = jnodes(&s.nodes(), scale, off); o["rnv"] = json!(s.nvars() as i64);
     o["rvars"] = proj1(s, sv); o["rivars"] = proj1_index(s, sv);
 }
 
@@ -225,26 +245,26 @@ fn step2<T: MV>(m: &mut Mesh2D<T>, op: &Value, sc: &Sc) -> Option<Value> {
             "apply" => {
                 // F(x, y) = (a + b X + c Y + d X Y) / 2^sv on the scaled integer coordinates X = x 2^sx, Y = y 2^sy
                 let (a, b, c, d) = (geti(op, "a"), geti(op, "b"), geti(op, "c"), geti(op, "d"));
-                let (fx, fy, sv) = (p2(sc.sx), p2(sc.sy), sc.sv);
-                let f = move |x: f64, y: f64| -> T { let (xx, yy) = (f2i(x * fx), f2i(y * fy)); T::mk(a + b * xx + c * yy + d * xx * yy, sv) };
+                let (fx, fy, sv, ox, oy) = (p2(sc.sx), p2(sc.sy), sc.sv, sc.ox, sc.oy);
+                let f = move |x: f64, y: f64| -> T { let (xx, yy) = (f2i((x - ox) * fx), f2i((y - oy) * fy)); T::mk(a + b * xx + c * yy + d * xx * yy, sv) };
                 m.apply(&f, getu(op, "var"));
             }
             "get" => o["rv"] = jv(&m.get_nodes_vars(getu(op, "i"), getu(op, "j")), sc.sv),
             "index" => o["rv"] = jv(&m[(getu(op, "i"), getu(op, "j"))], sc.sv),
             "index_all" => { let (nx, ny) = m.nnodes();
                 o["rvars"] = Value::from((0..nx).map(|i| Value::from((0..ny).map(|j| jv(&m[(i, j)], sc.sv)).collect::<Vec<Value>>())).collect::<Vec<Value>>()); }
-            "coord" => { let (x, y) = m.coord(getu(op, "i"), getu(op, "j")); o["rv"] = json!([f2i(x * p2(sc.sx)), f2i(y * p2(sc.sy))]); }
-            "xnodes" => o["rv"] = jnodes(&m.xnodes(), sc.sx),
-            "ynodes" => o["rv"] = jnodes(&m.ynodes(), sc.sy),
+            "coord" => { let (x, y) = m.coord(getu(op, "i"), getu(op, "j")); o["rv"] = json!([f2i((x - sc.ox) * p2(sc.sx)), f2i((y - sc.oy) * p2(sc.sy))]); }
+            "xnodes" => o["rv"] = jnodes(&m.xnodes(), sc.sx, sc.ox),
+            "ynodes" => o["rv"] = jnodes(&m.ynodes(), sc.sy, sc.oy),
             "nnodes" => { let (nx, ny) = m.nnodes(); o["rv"] = json!([nx as i64, ny as i64]); }
             "nvars" => o["ri"] = json!(m.nvars() as i64),
-            "xsec_x" => { let s = m.cross_section_xnode(getu(op, "i")); sect(&s, sc.sy, sc.sv, &mut o); }
-            "xsec_y" => { let s = m.cross_section_ynode(getu(op, "j")); sect(&s, sc.sx, sc.sv, &mut o); }
+            "xsec_x" => { let s = m.cross_section_xnode(getu(op, "i")); sect(&s, sc.sy, sc.oy, sc.sv, &mut o); }
+            "xsec_y" => { let s = m.cross_section_ynode(getu(op, "j")); sect(&s, sc.sx, sc.ox, sc.sv, &mut o); }
             "vam" => { let a = m.var_as_matrix(getu(op, "var")); let mut d = vec![];
                 for i in 0..a.rows() { for j in 0..a.cols() { d.push(a[(i, j)].sc(sc.sv)); } }
                 o["rm"] = json!({"r": a.rows(), "c": a.cols(), "d": d}); }
-            "trap" => o["ri"] = json!(f2i(T::trap2(m, getu(op, "var")).unwrap() * p2(sc.sx + sc.sy + 2 + sc.sv))),
-            "sq_trap" => o["ri"] = json!(f2i(T::sqtrap2(m, getu(op, "var")).unwrap() * p2(sc.sx + sc.sy + 2 + 2 * sc.sv))),
+            "trap" => split(T::trap2(m, getu(op, "var")).unwrap() * p2(sc.sx + sc.sy + 2 + sc.sv), sc.kx + sc.ky, &mut o),
+            "sq_trap" => split(T::sqtrap2(m, getu(op, "var")).unwrap() * p2(sc.sx + sc.sy + 2 + 2 * sc.sv), sc.kx + sc.ky, &mut o),
             other => { eprintln!("TOOL-ERROR unknown mesh2d op {}", other); std::process::exit(2) }
         }
         o
@@ -266,14 +286,15 @@ fn expand2(op: &Value, nx: usize, ny: usize, nv: usize) -> Vec<Value> {
 
 fn run2<T: MV>(case: &Value, out: &mut Out) {
     let cid = geti(case, "cid");
-    let sc = Sc { sx: geti(case, "sx"), sy: geti(case, "sy"), sv: geti(case, "sv") };
+    let sc = sc_of(case);
     let nv = getu(case, "nv");
     let (nx, ny) = (ivec(&case["xn"]).len(), ivec(&case["yn"]).len());
-    let mut m = Mesh2D::<T>::new(nodes_of(&case["xn"], sc.sx), nodes_of(&case["yn"], sc.sy), nv);
+    let mut m = Mesh2D::<T>::new(nodes_of(&case["xn"], case.get("xf"), sc.sx, sc.kx, sc.ox), nodes_of(&case["yn"], case.get("yf"), sc.sy, sc.ky, sc.oy), nv);
     let mut first = true; let mut k = 0usize;
     for op0 in case["ops"].as_array().unwrap() {
         for op in expand2(op0, nx, ny, nv) {
-            let pre = if first { Some(json!({"xn": case["xn"], "yn": case["yn"], "nv": nv, "vars": vec![vec![vec![0i64; nv]; ny]; nx]})) } else { None };
+            let pre = if first { Some(json!({"xn": case["xn"], "yn": case["yn"], "xf": case.get("xf").cloned().unwrap_or_else(|| Value::from(vec![0i64; nx])), "yf": case.get("yf").cloned().unwrap_or_else(|| Value::from(vec![0i64; ny])),
+                                                    "kx": sc.kx, "ky": sc.ky, "nv": nv, "vars": vec![vec![vec![0i64; nv]; ny]; nx]})) } else { None };
             if let Some(mut e) = step2(&mut m, &op, &sc) {
                 e["cid"] = json!(cid); e["k"] = json!(k); e["kind"] = json!("m2"); e["ty"] = json!(T::NAME);
                 if let Some(p) = pre { e["pre"] = p; first = false; }
@@ -307,8 +328,9 @@ fn grid(rng: &mut StdRng, n: usize, wide: bool) -> (Vec<i64>, i64) {
 }
 fn rv(rng: &mut StdRng, nv: usize, vmax: i64) -> Vec<i64> { (0..nv).map(|_| rng.gen_range(-vmax..=vmax)).collect() }
 
-fn gen1(rng: &mut StdRng, n: usize, nv: usize, ty: &str, wide: bool, len: usize) -> Value {
+fn gen1(rng: &mut StdRng, n: usize, nv: usize, ty: &str, wide: bool, len: usize, ox: i64) -> Value {
     let (xs, sx) = grid(rng, n, wide);
+    let oxf = ox as f64;
     let sv = rng.gen_range(0..=3i64);
     let vmax = 1000i64;
     let f64ty = ty == "f64";
@@ -327,7 +349,9 @@ fn gen1(rng: &mut StdRng, n: usize, nv: usize, ty: &str, wide: bool, len: usize)
     };
     // a first round that touches every node, in random order
     let mut order: Vec<usize> = (0..n).collect(); for i in (1..n).rev() { order.swap(i, rng.gen_range(0..=i)); }
-    for node in order { if rng.gen_bool(0.85) { ops.push(json!({"op": "set", "node": node, "v": rv(rng, nv, vmax)})); } }
+    for node in order { if node == 0 || node == n - 1 || rng.gen_bool(0.85) { ops.push(json!({"op": "set", "node": node, "v": rv(rng, nv, vmax)})); } }
+    // first and last node through every accessor
+    for node in [0, n - 1] { ops.push(json!({"op": "get", "node": node})); ops.push(json!({"op": "index", "node": node})); ops.push(json!({"op": "coord", "node": node})); }
     for round in 0..len {
         for _ in 0..rng.gen_range(1..=4) { write(rng, &mut ops); }
         match (round + n) % 4 { 0 => ops.push(json!({"op": "index_all"})), 1 => ops.push(json!({"op": "nodes"})), 2 => ops.push(json!({"op": (["nnodes", "nvars"][rng.gen_range(0..2)])})), _ => ops.push(json!({"op": "coord", "node": rng.gen_range(0..n)})) }
@@ -341,19 +365,86 @@ fn gen1(rng: &mut StdRng, n: usize, nv: usize, ty: &str, wide: bool, len: usize)
         for _ in 0..3 { let p = rng.gen_range(xs[0] * f..=xs[n - 1] * f); ops.push(json!({"op": "interp", "p": p, "r": r})); }
         for q in 0..4 {
             let c = rng.gen_range(0..n - 1);
-            let (xl, xr) = (xs[c] as f64 / p2(sx), xs[c + 1] as f64 / p2(sx));
+            let c = if q == 0 && round == 0 { 0 } else if q == 1 && round == 0 { n - 2 } else { c };      // first and last cell
+            let (xl, xr) = (oxf + xs[c] as f64 / p2(sx), oxf + xs[c + 1] as f64 / p2(sx));
             // q < 2: anywhere in the cell; otherwise just outside the 1e-6 exclusion zone of one of its end nodes
             let x = if q < 2 { xl + rng.gen::<f64>() * (xr - xl) } else { let dlt = 1.0e-6 * (1.0 + 3.0 * rng.gen::<f64>()) + 1.0e-9; if rng.gen_bool(0.5) { xl + dlt } else { xr - dlt } };
             let x = (x * p2(60)).round() / p2(60);
-            let okd = xs.iter().all(|k| ((*k as f64) / p2(sx) - x).abs() >= 1.0e-6) && x > xl && x < xr;
+            let okd = xs.iter().all(|k| (oxf + (*k as f64) / p2(sx) - x).abs() >= 1.0e-6) && x > xl && x < xr;
             if okd { ops.push(json!({"op": "interp_any", "xb": bits(x)})); }
         }
         ops.push(json!({"op": "trap", "var": rng.gen_range(0..nv)}));
-        if round % 2 == 0 { ops.push(json!({"op": "roundtrip", "p": rng.gen_range(0..=12), "m0": ([1, n, n + 3, 2][rng.gen_range(0..4)])})); }
+        // file round trip into a mesh with equally many / fewer / more nodes (always on another grid, holding other data)
+        ops.push(json!({"op": "roundtrip", "p": rng.gen_range(0..=12), "m0": ([n, 1, n + 3, n - 1][round % 4])}));
     }
     if f64ty { for v in 0..nv { ops.push(json!({"op": "trap", "var": v})); } }
-    json!({"kind": "m1", "ty": ty, "sx": sx, "sy": 0, "sv": sv, "xn": xs, "yn": [], "nv": nv, "ops": ops})
+    json!({"kind": "m1", "ty": ty, "sx": sx, "sy": 0, "sv": sv, "ox": ox, "xn": xs, "yn": [], "nv": nv, "ops": ops})
 }
+
+/// 1-D, large coordinates: interpolation on BOTH sides of every node at the dyadic distances 2^-12 .. 2^-18 (exact) and at
+/// 1e-6 .. 4e-6 (units); adjacent cells have different slopes.  Grid relative to the offset ox (0: the grid straddles 0).
+fn gen_near(rng: &mut StdRng, n: usize, nv: usize, ox: i64) -> Value {
+    let sx = rng.gen_range(1..=4i64);
+    let oxf = ox as f64;
+    let xs = loop {
+        let ks: Vec<i64> = (0..n - 1).map(|_| rng.gen_range(0..=sx)).collect();
+        if ks.iter().all(|k| *k == ks[0]) { continue; }
+        let mut xs = vec![0i64]; for k in &ks { let l = *xs.last().unwrap(); xs.push(l + (1i64 << (sx - k))); }
+        // ox = 0: put an interior node (or a cell interior) at / around the origin
+        let shift = if ox == 0 { xs[rng.gen_range(1..n - 1)] + rng.gen_range(0..2) } else { rng.gen_range(0..(1i64 << sx)) };
+        break xs.iter().map(|x| x - shift).collect::<Vec<i64>>();
+    };
+    let sv = rng.gen_range(0..=1i64);
+    let mut ops: Vec<Value> = vec![];
+    // zig-zag data: the slopes of adjacent cells differ in sign
+    let data: Vec<Vec<i64>> = (0..n).map(|k| (0..nv).map(|v| { let a = rng.gen_range(100..=500i64); if (k + v) % 2 == 0 { a } else { -a } }).collect()).collect();
+    for k in 0..n { ops.push(json!({"op": "set", "node": k, "v": data[k]})); }
+    let r = 18 - sx;
+    for k in 0..n {
+        for side in [-1i64, 1] {
+            if (k == 0 && side < 0) || (k == n - 1 && side > 0) { continue; }
+            for j in 12..=18i64 { ops.push(json!({"op": "interp", "p": xs[k] * (1i64 << r) + side * (1i64 << (18 - j)), "r": r, "near": j})); }
+            for q in 0..2 {
+                let dlt = if q == 0 { 1.0e-6 + 1.0e-9 + 1.0e-7 * rng.gen::<f64>() } else { 1.0e-6 * (1.0 + 3.0 * rng.gen::<f64>()) + 1.0e-9 };
+                let xk = oxf + xs[k] as f64 / p2(sx);
+                let x = xk + side as f64 * dlt;
+                if (x - xk).abs() >= 1.0e-6 { ops.push(json!({"op": "interp_any", "xb": bits(x), "near": 0})); }
+            }
+        }
+        ops.push(json!({"op": "interp", "p": xs[k] * (1i64 << r), "r": r, "near": 99}));
+    }
+    for v in 0..nv { ops.push(json!({"op": "trap", "var": v})); }
+    ops.push(json!({"op": "nodes"})); ops.push(json!({"op": "coord", "node": 0})); ops.push(json!({"op": "coord", "node": n - 1}));
+    ops.push(json!({"op": "roundtrip", "p": rng.gen_range(9..=12), "m0": n}));
+    json!({"kind": "m1", "ty": "f64", "sx": sx, "sy": 0, "sv": sv, "ox": ox, "xn": xs, "yn": [], "nv": nv, "ops": ops, "family": "near"})
+}
+
+/// coarse numerators 0, a, 2a, ... and fine numerators (cumulated 0/1 perturbations, mode 1) or zeros (mode 0: exactly uniform)
+fn fine_dir(rng: &mut StdRng, n: usize, a: i64, mode: u8) -> (Vec<i64>, Vec<i64>) {
+    let xs: Vec<i64> = (0..n as i64).map(|k| k * a).collect();
+    if mode == 0 { return (xs, vec![0; n]); }
+    loop {
+        let es: Vec<i64> = (0..n - 1).map(|_| rng.gen_range(0..=1)).collect();
+        if es.iter().all(|e| *e == 0) || (n > 2 && es.iter().all(|e| *e == 1)) { continue; }
+        let mut f = vec![0i64]; for e in &es { let l = *f.last().unwrap(); f.push(l + e); }
+        return (xs, f);
+    }
+}
+
+/// 1-D nearly uniform grid: spacings h (1 + e 2^-K), e in {0,1}; exact trapezium as a split number
+fn gen_fine1(rng: &mut StdRng, n: usize, nv: usize, k: i64, ox: i64) -> Value {
+    let sx = rng.gen_range(0..=3i64); let a = rng.gen_range(1..=2i64);
+    let (xs, xf) = fine_dir(rng, n, a, if k == 0 { 0 } else { 1 });
+    let sv = rng.gen_range(0..=1i64);
+    let (c0, c1) = (rng.gen_range(-200..=200i64), rng.gen_range(-60..=60i64));
+    let mut ops: Vec<Value> = vec![];
+    for q in 0..n { ops.push(json!({"op": "set", "node": q, "v": (0..nv).map(|v| c0 + c1 * q as i64 + (v as i64) * 7 + rng.gen_range(-3..=3)).collect::<Vec<i64>>()})); }
+    for v in 0..nv { ops.push(json!({"op": "trap", "var": v})); }
+    ops.push(json!({"op": "index_all"}));
+    ops.push(json!({"op": "roundtrip", "p": 12, "m0": n}));
+    json!({"kind": "m1", "ty": "f64", "sx": sx, "sy": 0, "sv": sv, "ox": ox, "kx": k, "xn": xs, "xf": xf, "yn": [], "nv": nv, "ops": ops, "family": "fine"})
+}
+
 
 fn gen2(rng: &mut StdRng, nx: usize, ny: usize, nv: usize, ty: &str, wide: bool, quad: bool, len: usize) -> Value {
     let (xs, sx) = grid(rng, nx, wide); let (ys, sy) = grid(rng, ny, wide);
@@ -370,6 +461,10 @@ fn gen2(rng: &mut StdRng, nx: usize, ny: usize, nv: usize, ty: &str, wide: bool,
     for (i, j) in order.iter().take(if len <= 2 { (nx * ny).min(24) } else { nx * ny }) {
         if rng.gen_bool(0.8) { ops.push(json!({"op": "set", "i": i, "j": j, "v": rv(rng, nv, vmax)})); }
     }
+    // the four corner nodes through get and index
+    for (c, (i, j)) in [(0, 0), (nx - 1, ny - 1), (0, ny - 1), (nx - 1, 0)].iter().enumerate() {
+        ops.push(json!({"op": "iset", "i": i, "j": j, "var": c % nv, "x": rng.gen_range(1..=vmax)}));
+        ops.push(json!({"op": (["get", "index"][c % 2]), "i": i, "j": j})); }
     for round in 0..len {
         for _ in 0..rng.gen_range(1..=4) {
             let (i, j) = (rng.gen_range(0..nx), rng.gen_range(0..ny));
@@ -393,14 +488,42 @@ fn gen2(rng: &mut StdRng, nx: usize, ny: usize, nv: usize, ty: &str, wide: bool,
             }
             if rng.gen_bool(0.6) { ops.push(json!({"op": (["get", "index"][rng.gen_range(0..2)]), "i": i, "j": j})); }
         }
-        ops.push(json!({"op": "xsec_x", "i": rng.gen_range(0..nx)}));
-        ops.push(json!({"op": "xsec_y", "j": rng.gen_range(0..ny)}));
-        ops.push(json!({"op": "vam", "var": rng.gen_range(0..nv)}));
+        // first, last, then random cross-sections / variables
+        let pick = |rng: &mut StdRng, n: usize| -> usize { match round { 0 => 0, 1 => n - 1, _ => rng.gen_range(0..n) } };
+        ops.push(json!({"op": "xsec_x", "i": pick(rng, nx)}));
+        ops.push(json!({"op": "xsec_y", "j": pick(rng, ny)}));
+        ops.push(json!({"op": "vam", "var": pick(rng, nv)}));
         match (round + nx + ny) % 4 { 0 => ops.push(json!({"op": "index_all"})), 1 => ops.push(json!({"op": (["xnodes", "ynodes"][rng.gen_range(0..2)])})),
                           2 => ops.push(json!({"op": (["nnodes", "nvars"][rng.gen_range(0..2)])})), _ => ops.push(json!({"op": "coord", "i": rng.gen_range(0..nx), "j": rng.gen_range(0..ny)})) }
         if f64ty && quad { let v = rng.gen_range(0..nv); ops.push(json!({"op": "trap", "var": v})); ops.push(json!({"op": "sq_trap", "var": rng.gen_range(0..nv)})); }
     }
-    json!({"kind": "m2", "ty": ty, "sx": sx, "sy": sy, "sv": sv, "xn": xs, "yn": ys, "nv": nv, "ops": ops})
+    let offs = [0i64, 0, 64, -64, 4096, -4096];
+    let (ox, oy) = (offs[rng.gen_range(0..offs.len())], offs[rng.gen_range(0..offs.len())]);
+    json!({"kind": "m2", "ty": ty, "sx": sx, "sy": sy, "sv": sv, "ox": ox, "oy": oy, "xn": xs, "yn": ys, "nv": nv, "ops": ops})
+}
+
+/// 2-D with nearly uniform / exactly uniform / ordinary directions.  dir mode: 0 exactly uniform, 1 nearly uniform (K = kx / ky), 2 ordinary
+/// non-uniform dyadic.  Bilinear nodal data with integer coefficients (plus a small perturbation); exact split expectations.
+fn gen_fine2(rng: &mut StdRng, nx: usize, ny: usize, nv: usize, mx: u8, kx: i64, my: u8, ky: i64) -> Value {
+    let mut dir = |rng: &mut StdRng, n: usize, mode: u8| -> (Vec<i64>, Vec<i64>, i64) {
+        if mode == 2 { let (xs, s) = grid(rng, n, false); (xs, vec![0; n], s) } else { let a = rng.gen_range(1..=2i64); let (xs, f) = fine_dir(rng, n, a, mode); (xs, f, rng.gen_range(0..=2i64)) } };
+    let (xs, xf, sx) = dir(rng, nx, mx); let (ys, yf, sy) = dir(rng, ny, my);
+    let (kx, ky) = (if mx == 1 { kx } else { 0 }, if my == 1 { ky } else { 0 });
+    let (lx, ly) = (xs[nx - 1] - xs[0] + 1, ys[ny - 1] - ys[0] + 1);
+    // budgets: TLC recomputes 4 Lx Ly V^2 in 32-bit integers (< 2^28); the f64 result has kx + ky more fractional bits (< 2^51 in all)
+    let bits = (28i64).min(51 - kx - ky);
+    let vmax = ((((1i64 << bits) / (4 * lx * ly)) as f64).sqrt().floor() as i64).min(1000).max(2);
+    let mut ops: Vec<Value> = vec![];
+    let (a, b, c, d) = (rng.gen_range(-vmax / 4..=vmax / 4), (vmax / 4 / nx as i64).min(9), (vmax / 4 / ny as i64).min(9), (vmax / 4 / (nx * ny) as i64).min(3));
+    let (b, c, d) = (if b > 0 { rng.gen_range(-b..=b) } else { 0 }, if c > 0 { rng.gen_range(-c..=c) } else { 0 }, if d > 0 { rng.gen_range(-d..=d) } else { 0 });
+    for i in 0..nx { for j in 0..ny {
+        let v: Vec<i64> = (0..nv).map(|q| { let (ii, jj) = (i as i64, j as i64); (a + b * ii + c * jj + d * ii * jj + q as i64 + if rng.gen_bool(0.3) { rng.gen_range(-1..=1) } else { 0 }).clamp(-vmax, vmax) }).collect();
+        ops.push(json!({"op": "set", "i": i, "j": j, "v": v}));
+    } }
+    for v in 0..nv { ops.push(json!({"op": "trap", "var": v})); ops.push(json!({"op": "sq_trap", "var": v})); }
+    ops.push(json!({"op": "vam", "var": nv - 1})); ops.push(json!({"op": "index_all"}));
+    let (ox, oy) = ([0i64, 64, -64][rng.gen_range(0..3)], [0i64, 64, -64][rng.gen_range(0..3)]);
+    json!({"kind": "m2", "ty": "f64", "sx": sx, "sy": sy, "sv": rng.gen_range(0..=1i64), "ox": ox, "oy": oy, "kx": kx, "ky": ky, "xn": xs, "yn": ys, "xf": xf, "yf": yf, "nv": nv, "ops": ops, "family": "fine"})
 }
 
 pub fn gen(tier: &str, seed: u64, out: &mut Out) {
@@ -412,9 +535,29 @@ pub fn gen(tier: &str, seed: u64, out: &mut Out) {
     let reps = if quick { 2 } else { 12 };
     for n in 2..=12usize { for rep in 0..reps {
         let nv = 1 + (n + rep) % 4;
-        push(out, gen1(&mut rng, n, nv, "f64", rep % 2 == 0, if quick { 4 } else { 6 }));
-        if rep % 2 == 0 { push(out, gen1(&mut rng, n, 1 + (n + rep + 1) % 4, "rat", rep % 4 == 0, 3)); }
+        let offs = [0i64, 64, -4096, 0, 1 << 20, -64, 4096, 0, -(1 << 20)];
+        push(out, gen1(&mut rng, n, nv, "f64", rep % 2 == 0, if quick { 4 } else { 6 }, offs[(n + 3 * rep) % offs.len()]));
+        if rep % 2 == 0 { push(out, gen1(&mut rng, n, 1 + (n + rep + 1) % 4, "rat", rep % 4 == 0, 3, 0)); }
     } }
+    // (a') 1-D at large coordinates, both signs, and straddling 0: both sides of every node at dyadic and at 1e-6-scale distances
+    let reps = if quick { 2 } else { 8 };
+    for (q, ox) in [0i64, 64, -64, 4096, -4096, 1 << 20, -(1 << 20)].iter().enumerate() { for rep in 0..reps {
+        push(out, gen_near(&mut rng, 3 + (q + 2 * rep) % 4, [1, 4, 2, 3][(q + rep) % 4], *ox));
+    } }
+    // (a'') 1-D nearly uniform (and exactly uniform, K = 0) grids
+    let reps = if quick { 1 } else { 4 };
+    for (q, k) in [0i64, 12, 16, 19, 20, 21, 22, 24, 27, 30].iter().enumerate() { for rep in 0..reps {
+        for n in [3usize, [2, 5, 12, 8][(q + rep) % 4]] { push(out, gen_fine1(&mut rng, n, [1, 4, 2, 3][(q + rep) % 4], *k, [0i64, 64, -64][(q + rep) % 3])); }
+    } }
+    // (b') 2-D: nearly uniform in x, in y, in both (kx + ky <= 28), against an exactly uniform / ordinary other direction; exactly uniform grids
+    for (q, k) in [12i64, 16, 19, 20, 21, 22, 24, 27, 30].iter().enumerate() { for rep in 0..reps {
+        let (nx, ny) = ([3usize, 4, 6, 12, 5][(q + rep) % 5], [4usize, 3, 5, 3, 2][(q + 2 * rep) % 5]);
+        let nv = [1usize, 4, 2][(q + rep) % 3];
+        push(out, gen_fine2(&mut rng, nx, ny, nv, 1, *k, [0u8, 2][(q + rep) % 2], 0));
+        push(out, gen_fine2(&mut rng, ny, nx, nv, [2u8, 0][(q + rep) % 2], 0, 1, *k));
+    } }
+    for (kx, ky) in [(12i64, 12i64), (13, 15), (14, 14), (12, 16)] { push(out, gen_fine2(&mut rng, 3 + (kx as usize) % 3, 3 + (ky as usize) % 4, 1 + (kx as usize) % 4, 1, kx, 1, ky)); }
+    push(out, gen_fine2(&mut rng, 4, 3, 2, 0, 0, 0, 0)); push(out, gen_fine2(&mut rng, 5, 4, 1, 0, 0, 2, 0)); push(out, gen_fine2(&mut rng, 3, 6, 4, 2, 0, 0, 0));
     // (b) 2-D: every shape 2..12 x 2..12
     let reps = if quick { 1 } else { 6 };
     for nx in 2..=12usize { for ny in 2..=12usize { for rep in 0..reps {
